@@ -67,11 +67,84 @@ func fail(r *hx.Run, container, op, what, detail string) {
 	r.Fail(container+"-"+what, detail, map[string]string{"container": container, "op": op, "oracle": what})
 }
 
+// retainedAns is a collection a container handed out, kept by the harness exactly as it was returned
+// (same backing array / same map) next to a private copy.  After every later request all retained
+// answers are compared with their copies: an answer that changes after it was returned shares storage
+// with the container or with another answer.  Every few requests the retained collections are
+// scribbled over instead (what a caller may do with its own copy) and dropped: a container that handed
+// out its own storage then shows the damage in its next state line / observation.
+type retainedAns struct {
+	what    string
+	kind    string
+	live    []int
+	copy    []int
+	liveMap map[int]int
+	copyMap map[int]int
+}
+
+var retained []*retainedAns
+
+func retainInts(kind, what string, l []int) {
+	retained = append(retained, &retainedAns{kind: kind, what: what, live: l, copy: append([]int(nil), l...)})
+}
+
+func retainMap(kind, what string, m map[int]int) {
+	c := make(map[int]int, len(m))
+	for k, v := range m {
+		c[k] = v
+	}
+	retained = append(retained, &retainedAns{kind: kind, what: what, liveMap: m, copyMap: c})
+}
+
+func checkRetained(r *hx.Run, after string) {
+	keep := retained[:0]
+	for _, a := range retained {
+		same := true
+		if a.liveMap != nil || a.copyMap != nil {
+			same = showPairs(a.liveMap) == showPairs(a.copyMap)
+		} else {
+			same = showInts(a.live) == showInts(a.copy)
+		}
+		if same {
+			keep = append(keep, a)
+
+			continue
+		}
+		detail := fmt.Sprintf("the answer of %q was %v when it was returned and reads %v after %q", a.what, a.copy, a.live, after)
+		if a.copyMap != nil {
+			detail = fmt.Sprintf("the answer of %q was %s when it was returned and reads %s after %q", a.what, showPairs(a.copyMap), showPairs(a.liveMap), after)
+		}
+		fail(r, a.kind, strings.Fields(a.what)[0], "retained-answer-changed", detail)
+	}
+	retained = keep
+}
+
+func scribbleRetained() {
+	for _, a := range retained {
+		if a.liveMap != nil {
+			for k := range a.liveMap {
+				a.liveMap[k] = -777
+			}
+			a.liveMap[-5] = -777
+		} else {
+			scribble(a.live)
+		}
+	}
+	retained = retained[:0]
+}
+
 func runCase(r *hx.Run, sub uint64, ops []string) {
 	r.Case(sub)
+	retained = retained[:0]
 	worlds := map[string]world{}
 	kinds := map[string]bool{}
-	for _, op := range ops {
+	for opIndex, op := range ops {
+		if opIndex > 0 {
+			checkRetained(r, ops[opIndex-1])
+			if opIndex%6 == 5 {
+				scribbleRetained()
+			}
+		}
 		f := strings.Fields(op)
 		if len(f) < 2 {
 			r.Line(op, "bad-op")
@@ -103,6 +176,9 @@ func runCase(r *hx.Run, sub uint64, ops []string) {
 		if len(a) > 0 && (a[0] == "none" || a[0] == "true" || a[0] == "false" || a[0] == "panic" || a[0] == "bad-op" || a[0] == "gone" || a[0] == "empty" || a[0] == "[]") {
 			r.Count("ans:" + kind + "." + a[0])
 		}
+	}
+	if len(ops) > 0 {
+		checkRetained(r, ops[len(ops)-1])
 	}
 	for k, w := range worlds {
 		if w.nontrivial() {
